@@ -1,43 +1,78 @@
 ----------------------------------- MODULE Credit -----------------------------------
-(* The send credit of one half connection (HalfConnection::fill_flush_alloc and the budget checks of the
-   emitters), reduced to what decides C13 at one instant: `alloc` bytes of credit, capped at
-   cap = rate x RTT when it is refilled; a frame may be started while the credit is not negative and
-   is charged in full (so the credit can go negative by less than one frame).
-   Client::step / Server::step call flush() first, then handle input, then refill (step() of the half
-   connection); the application then submits packets and calls flush() again.  All of that happens at
-   one instant as far as the rate bound is concerned.
+(* The send credit of one half connection over time (HalfConnection::fill_flush_alloc, step(), flush() and the
+   budget checks of the emitters), reduced to what decides C13: `alloc` bytes of credit, refilled with the bytes
+   that accrued at the send rate since a reference time and capped at cap = rate x RTT; a frame may be started
+   while the credit is not negative and is charged in full (so the credit can go negative by less than a frame).
 
-   InstantBound - what C13 allows at one instant: cap + one frame - is what the code's order of
-   operations (flush, refill, flush) violates: the first flush spends credit left from earlier, the
-   refill then grants min(cap, what is left + rate x time since the previous step) as if nothing had
-   just been sent, and the second flush spends that too.  This is known finding F22; TLC produces the
-   shortest witness.  With the refill moved before the first flush (RefillFirst = TRUE) the bound
-   holds.  The C13 check requires exactly this pair of outcomes, so the finding stays pinned to its
-   mechanism. *)
+   Time is counted in ticks.  The rate is the rational RateN / RateD bytes per tick, so that refills have
+   fractional parts (2500 B/s at one step per millisecond is 5/2).  To stay within integers the reference time is
+   kept in units of 1/RateN tick ("u"): one byte accrues every RateD u.
+
+   Client::step / Server::step call flush() first, then handle input, then step() of the half connection; the
+   application then submits packets and calls flush() again - all at one instant as far as the rate bound is
+   concerned - and any number of flushes may follow before time moves on.
+
+   Three variants of the mechanism, selected by the constant Variant:
+
+     "repaired"   what the code does now: flush() refills too, whole bytes are credited (floor) and the reference
+                  time advances by exactly the time those bytes took to accrue (it restarts when the credit is
+                  full: a full bucket accrues nothing, not even a fraction of a byte);
+     "steponly"   the code before fix 62262af: only step() refills.  Credit left over from the previous refill is
+                  spent by the flush that precedes step(), then step() grants up to another bucket (finding F22);
+     "rounding"   the code before fix 8b67270: a refill credits round(rate x elapsed) and restarts the elapsed
+                  time from zero, so a regular cadence keeps the same rounding error every time (finding F25).
+
+   RateBound is C13 on this model: over every interval the bytes sent are at most rate x interval + cap + one
+   frame, evaluated as the running bucket of BucketLemma.tla / MonRate.tla.  TLC must find it violated for the
+   two old variants and satisfied for the repaired one; the C13 check requires exactly these outcomes, so both
+   findings stay pinned to their mechanisms and the repaired mechanism is model-checked. *)
 EXTENDS Integers, TLC
 
-CONSTANTS Cap, FrameMax, Accrued, RefillFirst    \* cap = rate x RTT; largest frame; set of possible rate x dt values
+CONSTANTS Cap, FrameMax, RateN, RateD, MaxT, Variant
 
-VARIABLES alloc, sent, phase       \* sent: bytes put on the wire at this instant; phase: where Client::step + the application are
-vars == <<alloc, sent, phase>>
+VARIABLES alloc,    \* the credit (flush_alloc)
+          ref,      \* reference time of the refill, in u (time_last_flushed)
+          now,      \* current time in ticks
+          level,    \* running bucket of what was put on the wire, in 1/RateD bytes (the monitor's view)
+          tEmit     \* time of the latest emission, in u
+vars == <<alloc, ref, now, level, tEmit>>
 
 Min(a, b) == IF a < b THEN a ELSE b
+Max(a, b) == IF a > b THEN a ELSE b
 
-Init == alloc \in 0..Cap /\ sent = 0 /\ phase = "start"
+NowU == now * RateN
 
-(* one flush: any number of frames, each started on non-negative credit *)
-Frame == /\ phase \in {"flush1", "flush2"} /\ alloc >= 0
-         /\ \E len \in 1..FrameMax : alloc' = alloc - len /\ sent' = sent + len
-         /\ UNCHANGED phase
-Refill == \E a \in Accrued : alloc' = Min(alloc + a, Cap)
+Init == alloc \in {0, Cap} /\ ref = 0 /\ now = 0 /\ level = 0 /\ tEmit = 0
 
-Advance ==
-    \/ phase = "start" /\ (IF RefillFirst THEN Refill /\ phase' = "flush1" ELSE alloc' = alloc /\ phase' = "flush1") /\ UNCHANGED sent
-    \/ phase = "flush1" /\ (IF RefillFirst THEN alloc' = alloc ELSE Refill) /\ phase' = "flush2" /\ UNCHANGED sent
-    \/ phase = "flush2" /\ phase' = "done" /\ UNCHANGED <<alloc, sent>>
+(* fill_flush_alloc at the current time: the new credit and the new reference *)
+Fill ==
+    LET d == NowU - ref                       \* elapsed, in u; one byte per RateD u
+        whole == d \div RateD                 \* floor(rate x elapsed)
+        rounded == (2 * d + RateD) \div (2 * RateD)   \* round(rate x elapsed), half away from zero
+        new == IF Variant = "rounding" THEN rounded ELSE whole
+        full == Variant = "repaired" /\ alloc + new >= Cap
+    IN  [alloc |-> Min(alloc + new, Cap),
+         ref |-> IF full THEN NowU                              \* full: nothing accrues meanwhile, the elapsed time starts over
+                 ELSE IF new = 0 THEN ref                       \* nothing accrued yet: keep accumulating
+                 ELSE IF Variant = "rounding" THEN NowU        \* elapsed time restarts from zero
+                 ELSE ref + new * RateD]                        \* advance by the time the whole bytes took
 
-Next == Frame \/ Advance
+Step == /\ alloc' = Fill.alloc /\ ref' = Fill.ref /\ UNCHANGED <<now, level, tEmit>>
+
+(* one frame of a flush (a flush is any number of these at one instant; refilling twice at one instant adds nothing) *)
+Frame(len) ==
+    LET f == IF Variant = "steponly" THEN [alloc |-> alloc, ref |-> ref] ELSE Fill
+    IN  /\ f.alloc >= 0
+        /\ alloc' = f.alloc - len /\ ref' = f.ref
+        /\ level' = len * RateD + Max(0, level - (NowU - tEmit))
+        /\ tEmit' = NowU
+        /\ UNCHANGED now
+
+Tick == now < MaxT /\ now' = now + 1 /\ UNCHANGED <<alloc, ref, level, tEmit>>
+
+Next == Step \/ Tick \/ \E len \in 1..FrameMax : Frame(len)
 Spec == Init /\ [][Next]_vars
 
-InstantBound == sent <= Cap + FrameMax
+RateBound == level <= (Cap + FrameMax) * RateD
+TypeOK == alloc \in -FrameMax..Cap /\ ref <= NowU
 =====================================================================================
